@@ -328,14 +328,16 @@ def run_sdk(ch: Choices, opts: Dict[str, Any], calm: bool) -> Dict[str, Any]:
         raise Violation("controller", f"sdk-form|fault-on-delivery|{type(e).__name__}|{fr.name}",
                         {"task": task.name, "error": str(e)[:300], **sample})
     sched.on_error = on_error
-    cap = 60000
+    from sim.rigs.controller import LivenessWatch
+    watch = LivenessWatch(sched, nodes, link, window=8000, hard=400000)
     while not done():
         if sched.step() is None:
             raise Violation("liveness", "liveness|deadlock|sdk-form", {"trace": tail(), **sample})
         for m in mons:
             m.check_step()
-        if sched.steps > cap:
-            raise Violation("liveness", "liveness|no-progress|sdk-form", {"trace": tail(), **sample})
+        stuck = watch.verdict()
+        if stuck:
+            raise Violation("liveness", f"liveness|{stuck}|sdk-form", {"trace": tail(), **sample})
     link.stop()
     for m in mons:
         m.final()
